@@ -44,11 +44,13 @@ impl AcceptorTimerConfig {
         // the UAC side is responsible for refreshes
         self.refresher = match self.refresher {
             Refresher::Uas => {
-                real_delta_secs = delta_secs - 10;
+                // we refresh, do it before the session expires
+                real_delta_secs = delta_secs.saturating_sub(10);
                 Refresher::Uas
             }
             Refresher::Unspecified | Refresher::Uac => {
-                real_delta_secs = delta_secs + 10;
+                // the peer refreshes, give up only after the session expired
+                real_delta_secs = delta_secs.saturating_add(10);
                 Refresher::Uac
             }
         };
@@ -100,13 +102,15 @@ impl InitiatorTimerConfig {
         {
             let real_delta_secs;
 
+            // This is the UAC side: if the UAS refreshes the session is only given up after it
+            // expired, otherwise the refresh must happen before it expires
             let refresher = match se.refresher {
                 Refresher::Uas => {
-                    real_delta_secs = se.delta_secs - 10;
+                    real_delta_secs = se.delta_secs.saturating_add(10);
                     Refresher::Uas
                 }
                 Refresher::Unspecified | Refresher::Uac => {
-                    real_delta_secs = se.delta_secs + 10;
+                    real_delta_secs = se.delta_secs.saturating_sub(10);
                     Refresher::Uac
                 }
             };
